@@ -543,6 +543,32 @@ pub fn c10_body(c: &C10Case, obs: &mut Obs) -> Result<(), String> {
     for t in &m.types {
         obs.class(&format!("def/{}", t.ty.def.kind()));
     }
+    // how far (in reference steps, shortest path) the farthest retained entry is from the accepted ids
+    {
+        let mut level: BTreeMap<u32, u32> = (0..n as u32).filter(|i| accept(*i)).map(|i| (i, 0)).collect();
+        let mut frontier: Vec<u32> = level.keys().copied().collect();
+        let mut d = 0;
+        while !frontier.is_empty() {
+            d += 1;
+            let mut next = vec![];
+            for x in frontier {
+                for r in m.types[x as usize].ty.refs() {
+                    if !level.contains_key(&r) {
+                        level.insert(r, d);
+                        next.push(r);
+                    }
+                }
+            }
+            frontier = next;
+        }
+        let far = level.values().copied().max().unwrap_or(0);
+        obs.class(match far {
+            0..=7 => "distance_from_accepted/0-7",
+            8..=63 => "distance_from_accepted/8-63",
+            64..=127 => "distance_from_accepted/64-127",
+            _ => "distance_from_accepted/128+",
+        });
+    }
     let _ = out;
     if obs.want_sample() {
         obs.sample(json!({"registry": sample_reg(m), "mask": mask, "map": map.iter().map(|(k, v)| (k.to_string(), *v)).collect::<BTreeMap<_, _>>()}));
@@ -551,15 +577,27 @@ pub fn c10_body(c: &C10Case, obs: &mut Obs) -> Result<(), String> {
 }
 
 fn c10_strat(max: usize) -> BoxedStrategy<C10Case> {
-    reg_wf(max)
-        .prop_flat_map(|m| {
+    c10_strat_on(reg_wf(max).boxed(), false)
+}
+
+/// registries with one reference path of 65-400 entries
+fn c10_deep_strat() -> BoxedStrategy<C10Case> {
+    c10_strat_on(prop_oneof![3 => reg_deep(140), 1 => reg_deep(400)].boxed(), true)
+}
+
+fn c10_strat_on(regs: BoxedStrategy<MReg>, sparse: bool) -> BoxedStrategy<C10Case> {
+    regs
+        .prop_flat_map(move |m| {
             let n = m.types.len();
+            // deep registries: mostly one or two accepted ids, so that most of the path is
+            // reached by reference only
+            let (dense_w, sparse_w, single_w) = if sparse { (1, 4, 8) } else { (6, 2, 2) };
             let mask = prop_oneof![
-                6 => vec(any::<bool>(), n..=n),
-                2 => vec(prop::bool::weighted(0.15), n..=n),
+                dense_w => vec(any::<bool>(), n..=n),
+                sparse_w => vec(prop::bool::weighted(if sparse { 0.01 } else { 0.15 }), n..=n),
                 1 => Just(vec![true; n]),
                 1 => Just(vec![false; n]),
-                2 => (0..n).prop_map(move |i| (0..n).map(|k| k == i).collect::<Vec<bool>>()),
+                single_w => (0..n).prop_map(move |i| (0..n).map(|k| k == i).collect::<Vec<bool>>()),
             ];
             (Just(m), mask, prop::bool::weighted(0.35))
         })
@@ -655,6 +693,15 @@ pub fn c10_subs() -> Vec<Box<dyn Sub>> {
             body: Box::new(c10_body),
             guard_death: true,
             max_shrink: 4096,
+        }),
+        Box::new(Check {
+            name: "retain_deep",
+            quick: 1_500,
+            thorough: 60_000,
+            strat: Box::new(c10_deep_strat),
+            body: Box::new(c10_body),
+            guard_death: true,
+            max_shrink: 1024,
         }),
         Box::new(Check {
             name: "retain_large",
